@@ -102,6 +102,10 @@ def setup (c : Cluster) (toks : List String) : Option Cluster :=
   | ["ORDER", "req"] => some { c with order := .req }
   | ["ORDER", "rev"] => some { c with order := .rev }
   | ["ORDER", "rot", k] => k.toNat?.map fun k => { c with order := .rot k }
+  | ["FETCHSHAPE", n, k] =>
+    match n.toInt?, k.toNat? with
+    | some n, some k => some { c with fetchShape := (c.fetchShape.filter (·.1 != n)) ++ (if k == 0 then [] else [(n, k)]) }
+    | _, _ => none
   | ["DATAWITHERROR", b] => some { c with dataWithError := b == "1" }
   | _ => none
 
